@@ -92,8 +92,8 @@ fn exec(sc: &Scenario) -> Report {
         let len = if sc.c("len_known") == 1 { Some(sc.c("len0")) } else { None };
         // visible twin
         let vterm = SimTerm::new(40, 20);
-        let vis = ProgressBar::with_draw_target(len, ProgressDrawTarget::term_like(Box::new(vterm.clone())))
-            .with_finish(finish_kind(sc.c("on_finish"), "fin"));
+        let vis = ProgressBar::with_draw_target(len, ProgressDrawTarget::term_like(Box::new(vterm.clone())));
+        let vis = if sc.c("on_finish") == 5 { vis } else { vis.with_finish(finish_kind(sc.c("on_finish"), "fin")) };
         vis.set_style(style());
         // the hidden one
         let spy = SimTerm::new(40, 20); // the terminal a hidden bar must never touch
@@ -177,7 +177,8 @@ fn exec(sc: &Scenario) -> Report {
                 pb
             }
         };
-        let hid = hid.with_finish(finish_kind(sc.c("on_finish"), "fin"));
+        // (on_finish 5: the bars keep the finish behaviour their constructor gave them)
+        let hid = if sc.c("on_finish") == 5 { hid } else { hid.with_finish(finish_kind(sc.c("on_finish"), "fin")) };
         hid.set_style(style());
         let ops = sc.threads.first().cloned().unwrap_or_default();
         let switch_at = (sc.c("switch_at") as usize).min(ops.len());
@@ -280,6 +281,36 @@ fn exec(sc: &Scenario) -> Report {
                 r.violate("C06.silence", format!("while idle a hidden bar ({way}) made {} terminal calls (steady ticker?)", after - before));
             }
         }
+        // what a hidden MultiProgress was asked to print is gone for good: when it gets a terminal
+        // later, nothing of it turns up there
+        if way == "mp_hidden" && r.violation.is_none() {
+            if let Some(mp) = &mp_keep {
+                let late = call(|| {
+                    let sib = mp.add(ProgressBar::with_draw_target(Some(3), ProgressDrawTarget::hidden()));
+                    sib.set_style(style());
+                    let _ = hid.is_finished();
+                    hid.disable_steady_tick();
+                    let _ = mp.remove(&hid);
+                    mp.set_draw_target(ProgressDrawTarget::term_like(Box::new(spy.clone())));
+                    sib.tick();
+                    sib
+                });
+                match late {
+                    Err(p) => r.violate("C06.no_panic", format!("giving the hidden MultiProgress a terminal panicked: {p}")),
+                    Ok(sib) => {
+                        let rows = spy.transcript();
+                        if rows.iter().any(|row| row.contains("a log line")) {
+                            r.violate(
+                                "C06.silence",
+                                format!("lines printed through a member while the MultiProgress was hidden reached the terminal it got later: {rows:?}"),
+                            );
+                        }
+                        r.probe("hidden_mp_made_visible_at_the_end");
+                        drop(sib);
+                    }
+                }
+            }
+        }
         r.probe_n("visible_twin_frames", vterm.flushes());
         r.nontrivial = ops.len() >= 3 && vterm.flushes() >= 1;
         let _ = vterm.width();
@@ -325,7 +356,7 @@ impl Check for C06 {
         sc.set("way", rng.weighted(&[5, 5, 1, 4, 1, 6, 2, 4, 4, 4, 3]) as u64);
         sc.set("len_known", rng.chance(3, 4) as u64);
         sc.set("len0", boundary_u64(rng));
-        sc.set("on_finish", rng.below(5));
+        sc.set("on_finish", rng.below(6));
         sc.set("strategy", 0);
         let n = rng.range(3, if tier == Tier::Quick { 20 } else { 30 });
         sc.set("switch_at", rng.below(n / 2 + 1));
